@@ -203,8 +203,16 @@ fn main() {
             let thr: u32 = args.get(3).and_then(|s| s.parse().ok()).unwrap_or(0);
             let path = args.get(4).cloned();
             let src = std::fs::read_to_string(&f).unwrap_or_default();
+            // further arguments: <module path>=<file> pairs for the host's module store
+            let mut modules: std::collections::BTreeMap<String, String> = Default::default();
+            for a in args.iter().skip(5) {
+                if let Some((mp, file)) = a.split_once('=') {
+                    modules.insert(mp.to_string(), std::fs::read_to_string(file).unwrap_or_default());
+                }
+            }
+            let path = path.filter(|p| p != "-");
             let spec = host::RunSpec {
-                source: src, path, modules: Default::default(), answers: Default::default(), driver: host::Driver::Step,
+                source: src, path, modules, answers: Default::default(), driver: host::Driver::Step,
                 gc: host::GcSched { force_at_suspend: true, ..host::GcSched::threshold(thr) },
                 tape: rng::Tape::from_vec(vec![]), fuel: 3_000_000, clock_start: 0, random_seed: 1, withhold_imports: false, linked_promises: false,
                 host_activity_pm: 0, internal_sources: Default::default(),
